@@ -84,9 +84,17 @@ type Cfg struct {
 	Kind  string `json:"kind"` // reg, dir
 	Feat  string `json:"feat"` // api, api-page1, api-nohdr, noapi, noapi-notagdel
 	Cache bool   `json:"cache"`
+	// Tag: every artifact is pushed to a tag of its own (repo:art-<name>) instead of by digest
+	Tag bool `json:"tag,omitempty"`
 }
 
-func (c Cfg) String() string { return fmt.Sprintf("%s feat=%s cache=%v", c.Kind, c.Feat, c.Cache) }
+func (c Cfg) String() string {
+	s := fmt.Sprintf("%s feat=%s cache=%v", c.Kind, c.Feat, c.Cache)
+	if c.Tag {
+		s += " push=by-tag"
+	}
+	return s
+}
 
 type Op struct {
 	K string `json:"k"` // put, del
@@ -186,6 +194,9 @@ func (w *World) man(i int) manifest.Manifest {
 func (w *World) do(ctx context.Context, o Op) error {
 	r := w.base.SetDigest(arts[o.A].digest)
 	if o.K == "put" {
+		if w.cfg.Tag {
+			return w.rc.ManifestPut(ctx, w.base.SetTag("art-"+strings.ToLower(arts[o.A].name)), w.man(o.A))
+		}
 		return w.rc.ManifestPut(ctx, r, w.man(o.A))
 	}
 	return w.rc.ManifestDelete(ctx, r, regclient.WithManifestCheckReferrers())
@@ -466,6 +477,8 @@ func configs() []Cfg {
 		{Kind: "reg", Feat: "noapi"}, {Kind: "reg", Feat: "noapi-notagdel"},
 		{Kind: "reg", Feat: "api", Cache: true}, {Kind: "reg", Feat: "noapi", Cache: true}, {Kind: "reg", Feat: "api-page1", Cache: true},
 		{Kind: "dir"},
+		{Kind: "reg", Feat: "api", Cache: true, Tag: true}, {Kind: "reg", Feat: "noapi", Cache: true, Tag: true}, {Kind: "reg", Feat: "api-page1", Cache: true, Tag: true},
+		{Kind: "reg", Feat: "api", Tag: true}, {Kind: "reg", Feat: "noapi", Tag: true}, {Kind: "dir", Tag: true},
 	}
 }
 
@@ -474,7 +487,11 @@ func vkey(k string, cfg Cfg, h []Op) string {
 	if len(h) > 0 {
 		last = h[len(h)-1].K
 	}
-	return fmt.Sprintf("%s %s feat=%s cache=%v after=%s", k, cfg.Kind, cfg.Feat, cfg.Cache, last)
+	by := ""
+	if cfg.Tag {
+		by = " push=by-tag"
+	}
+	return fmt.Sprintf("%s %s feat=%s cache=%v%s after=%s", k, cfg.Kind, cfg.Feat, cfg.Cache, by, last)
 }
 
 // sequences without deduplication (the client cache is hidden state)
@@ -714,7 +731,7 @@ func concKinds(sc concScen) string {
 func TestVerifC10(t *testing.T) {
 	rec := ev.New()
 	defer rec.Flush(t)
-	rec.Rule("part 1: per configuration (registry with the referrers API unpaged / paged by 1 / without OCI-Subject acknowledgement, without the API (fallback tag), without API and tag delete, response cache on for three of them, OCI layout) breadth-first search to closure over histories of put / referrer-aware delete of four artifacts (two types, one referrer of a referrer, one with a non-existent subject), states deduplicated by raw store (artifacts + fallback tags); plus every sequence of length 3 (thorough 4) WITHOUT deduplication, because the client cache is hidden state. After every operation ReferrerList of every subject (plain, artifactType filter, annotation filter) is compared with the reference multimap and the raw fallback tag is audited. " +
+	rec.Rule("part 1: per configuration (registry with the referrers API unpaged / paged by 1 / without OCI-Subject acknowledgement, without the API (fallback tag), without API and tag delete, response cache on for three of them, OCI layout; six of these again with every artifact pushed to a tag of its own instead of by digest) breadth-first search to closure over histories of put / referrer-aware delete of six artifacts (two types, one referrer of a referrer, one with a non-existent subject, one index-typed, one config-typed), states deduplicated by raw store (artifacts + fallback tags); plus every sequence of length 3 (thorough 4) WITHOUT deduplication, because the client cache is hidden state. After every operation ReferrerList of every subject (plain, artifactType filter, annotation filter) is compared with the reference multimap and the raw fallback tag is audited. " +
 		"part 2: 2-4 concurrent updates/lists of one subject through one client, every interleaving within a pre-emption bound at request arrivals (every mutex acquisition for layouts); after quiescence a fresh client and the same client must list exactly the multimap implied by the completed updates. distinct_nontrivial = distinct transitions / sequences / concurrent outcomes")
 	if rd := rec.ReplayData(); rd != nil {
 		var rp replay
